@@ -3,7 +3,7 @@ from iauth_common import *
 PROFILE = dict(p_good_reply=0.6, timeouts=[0, 3600, 3600], maxlen=45)
 
 def run(chk):
-    r = standard_run(chk, PROFILE, 1500, 30000)
+    r = standard_run(chk, PROFILE, 4000, 40000)
     if r is None: return
     drv, impl, scns, ms, ds = r
     def judge(scn, i, dp, mp):
